@@ -162,6 +162,10 @@ class Scenario:
             if log.pending:
                 d = min(log.pending) if c == "d" else max(log.pending)
                 loop.do(aprobe.finish_delivery, log, d)
+        elif c == "x":
+            if log.pending:
+                self.failed = True
+                loop.do(aprobe.fail_delivery, log, min(log.pending))
         elif c in ("f", "F"):
             live = [(x, f) for x, f in self.tasks if not f.done()]
             if live:
@@ -200,6 +204,8 @@ class Scenario:
             return bool(log.pending)
         if c == "D":
             return len(log.pending) > 1
+        if c == "x":
+            return bool(log.pending) and bool(self.cfg.get("faults")) and not getattr(self, "failed", False)
         if c == "f":
             return any(not f.done() for _, f in self.tasks)
         if c == "F":
@@ -285,6 +291,8 @@ def alphabet(cfg):
         al += ["a", "w"]
     if k == "map_async":
         al += ["f", "F"]
+    if cfg.get("faults"):
+        al += ["x"]
     return al
 
 
@@ -317,7 +325,7 @@ def enumerate_schedules(cfg, depth, limit, rng):
 
 def random_schedules(cfg, count, maxlen, rng):
     al = alphabet(cfg)
-    w = {"e": 3, "s": 4, "d": 2, "D": 1, "a": 2, "w": 1, "f": 2, "F": 1}
+    w = {"e": 3, "s": 4, "d": 2, "D": 1, "a": 2, "w": 1, "f": 2, "F": 1, "x": 1}
     out = []
     for _ in range(count):
         n = rng.randint(4, maxlen)
